@@ -416,4 +416,34 @@ theorem moon_maximum_declination_err {s : String} (hs : ¬ (s = "northern" ∨ s
     moon_maximum_declination jde s = .error .valueError := by
   unfold moon_maximum_declination; rw [moon_maximum_declination_raw_err hs]
 
+/-- the reported extreme declination: `±(23.6961 - 0.013004 t + cor2)`, not altered by the `Angle` reduction,
+    positive and within 17.4°..30° for "northern", negative and within -30°..-17.4° for "southern" -/
+theorem decl_value_range (k : ℝ) {s : String} (hs : s = "northern" ∨ s = "southern") (hk : |k / 1336.86| ≤ 41) :
+    (s = "northern" → 17.4 ≤ decl_value k s ∧ decl_value k s ≤ 30) ∧
+    (s = "southern" → -30 ≤ decl_value k s ∧ decl_value k s ≤ -17.4) := by
+  have hc := abs_le.mp (abs_decl_cor2_le k s hk)
+  have ht := abs_le.mp hk
+  unfold decl_value
+  simp only
+  generalize (if s = "northern" then evalTerms (ecc (k / 1336.86)) (k / 1336.86) (decl_env k s) decl_cor2_north
+      else evalTerms (ecc (k / 1336.86)) (k / 1336.86) (decl_env k s) decl_cor2_south) = c at hc ⊢
+  generalize k / 1336.86 = t at ht ⊢
+  have x1 : 17.4 ≤ 23.6961 - 0.013004 * t + c := by norm_num at hc ht ⊢; linarith [hc.1, ht.2]
+  have x2 : 23.6961 - 0.013004 * t + c ≤ 30 := by norm_num at hc ht ⊢; linarith [hc.2, ht.1]
+  rcases hs with h | h
+  · subst h
+    have hne : ¬ ("northern" = "southern") := by decide
+    simp only [hne, if_false]
+    have hlt : |23.6961 - 0.013004 * t + c| < 360 := by rw [abs_lt]; constructor <;> norm_num at x1 x2 ⊢ <;> linarith
+    rw [reduce_deg_of_lt hlt, reduce_deg_of_lt hlt]
+    exact ⟨fun _ => ⟨x1, x2⟩, fun h => h.elim⟩
+  · subst h
+    have hne : ¬ ("southern" = "northern") := by decide
+    simp only [if_true]
+    have hlt : |(23.6961 - 0.013004 * t + c) * (-1.0)| < 360 := by
+      rw [abs_lt]; constructor <;> norm_num at x1 x2 ⊢ <;> linarith
+    rw [reduce_deg_of_lt hlt, reduce_deg_of_lt hlt]
+    refine ⟨fun h => absurd h hne, fun _ => ?_⟩
+    constructor <;> norm_num at x1 x2 ⊢ <;> linarith
+
 end Pymeeus.GenR.MoonM
